@@ -1,58 +1,195 @@
-"""Stand-alone probes run in a subprocess by checks/c17.py (a crash or a RecursionError must not take the check down).
-usage: python -m lib.engine_probe chain <n>  |  python -m lib.engine_probe untracked <iterations> <mode>
-prints one JSON object."""
+"""Stand-alone probes run in subprocesses by checks/c17.py (a crash, a RecursionError or a run that never finishes must not
+take the check down).  Every probe prints one line `PROBE <json>`.
+
+  python -m lib.engine_probe chain <n> <variant>      deep chain, the chain carried by a given operand position
+  python -m lib.engine_probe diamond <depth> <variant> reconvergent graph (stacked diamonds): work must stay linear
+  python -m lib.engine_probe untracked <iters> <mode>  untracked update loop, weak references to earlier iterates
+  python -m lib.engine_probe catalog                   every op of lib/opcatalog.py used without tracking keeps nothing
+"""
 import gc, json, sys, time, weakref
 
 
-def chain(n):
-    from lib import impl
-    sg, np = impl.synapgrad, impl.np
+class WorkBound(Exception):
+    pass
+
+
+def instrument(impl, limit_factor=50):
+    """Count, from outside, closure invocations, created closures and Tensor.zero_ calls.  `bound[0]` may be set to the
+    linear bound; exceeding limit_factor * bound aborts the run (no need to wait for 2^60 steps)."""
     BF = impl.TF.BackwardFunction
-    counts = {}
-    orig = BF.__call__
+    T = impl.synapgrad.Tensor
+    st = {"calls": {}, "ncalls": 0, "created": 0, "zero": 0, "bound": None}
+    orig_call, orig_init, orig_zero = BF.__call__, BF.__init__, T.zero_
 
     def call(self):
-        counts[id(self)] = counts.get(id(self), 0) + 1
-        return orig(self)
-    BF.__call__ = call
-    t0 = time.time()
-    x = sg.Tensor(np.array([1.0]), requires_grad=True)
-    y = x
-    d = 1            # exact derivative dy/dx
-    keep = []
-    nfn = 0
-    for i in range(n):
-        if i % 97 == 96:
-            y = y + x; d += 1
-        elif i % 2:
-            y = y * -1.0; d = -d
-        else:
-            y = y * 1.0
-        keep.append(y)
-        nfn += 1
+        st["calls"][id(self)] = st["calls"].get(id(self), 0) + 1
+        st["ncalls"] += 1
+        if st["bound"] is not None and st["ncalls"] > limit_factor * st["bound"]:
+            raise WorkBound("more than %d x the linear bound %d closure calls" % (limit_factor, st["bound"]))
+        return orig_call(self)
+
+    def init(self, *a, **k):
+        st["created"] += 1
+        return orig_init(self, *a, **k)
+
+    def zero(self):
+        st["zero"] += 1
+        if st["bound"] is not None and st["zero"] > limit_factor * st["bound"]:
+            raise WorkBound("more than %d x the linear bound %d calls of Tensor.zero_" % (limit_factor, st["bound"]))
+        return orig_zero(self)
+    BF.__call__, BF.__init__, T.zero_ = call, init, zero
+    return st
+
+
+def linear_bound(root):
+    """sum over the tensors reachable from root of (1 + number of operands)  - the bound of theorems ordering_loop_linear /
+    zero_calls_linear, computed by our own walk with a visited set."""
+    seen, todo, total, fns = {id(root)}, [root], 0, 0
+    while todo:
+        n = todo.pop()
+        total += 1 + len(n._children)
+        fns += 1 if n.grad_fn is not None else 0
+        for c in n._children:
+            if id(c) not in seen:
+                seen.add(id(c)); todo.append(c)
+    return total, fns
+
+
+def finish(res, st, root, x, expected, seed=None):
+    from lib import impl
+    sg, np = impl.synapgrad, impl.np
+    bound, fns = linear_bound(root)
+    st["bound"] = bound
+    res.update(bound=bound, closures=fns)
     t1 = time.time()
-    res = {"n": n, "closures": nfn}
     try:
-        y.backward()
-        g = x._grad
-        res.update(ok=True, grad=float(g[0]), expected=float(d), calls=len(counts), max_calls=max(counts.values()),
-                   build_s=round(t1 - t0, 2), backward_s=round(time.time() - t1, 2),
-                   intermediates_released=all(t._grad is None for t in keep[:-1]))
-        # a second call accumulates
-        y.backward()
-        res["grad_after_second_call"] = float(x._grad[0])
-        res["calls_after_second_call"] = sorted(set(counts.values()))
-    except BaseException as ex:       # RecursionError is an Exception; MemoryError etc. too
-        res.update(ok=False, error="%s: %s" % (type(ex).__name__, str(ex)[:200]))
+        if seed is None:
+            root.backward()
+        else:
+            root.backward(sg.Tensor(seed))
+        g = np.asarray(x._grad, dtype=np.float64).reshape(-1)
+        e = np.asarray(expected, dtype=np.float64).reshape(-1)
+        res.update(ok=True, grad=[float(v) for v in g[:4]], expected=[float(v) for v in e[:4]], grad_exact=bool((g == e).all()),
+                   calls=len(st["calls"]), max_calls=max(st["calls"].values()) if st["calls"] else 0, zero_calls=st["zero"],
+                   backward_s=round(time.time() - t1, 2))
+    except BaseException as ex:
+        res.update(ok=False, error="%s: %s" % (type(ex).__name__, str(ex)[:200]), zero_calls=st["zero"], calls=len(st["calls"]))
     return res
+
+
+CHAIN_VARIANTS = ["first_mul", "second_mul", "second_add", "alternating", "unary", "matmul_right", "matmul_left",
+                  "addmm_first", "addmm_second", "addmm_third", "concat_second", "concat_first", "stack_second", "tensor_scalar_mix"]
+
+
+def chain(n, variant):
+    from lib import impl
+    sg, np, TF = impl.synapgrad, impl.np, impl.TF
+    st = instrument(impl)
+    C = lambda a: sg.Tensor(np.array(a, dtype=np.float64))
+    res = {"kind": "chain", "n": n, "variant": variant}
+    t0 = time.time()
+    if variant in ("matmul_right", "matmul_left", "addmm_first", "addmm_second", "addmm_third"):
+        P = np.array([[0.0, 1.0], [1.0, 0.0]]); D = np.array([[1.0, 0.0], [0.0, -1.0]])
+        Ws = [P, D]
+        if variant in ("matmul_right", "addmm_third"):
+            x = sg.Tensor(np.array([[1.0], [2.0]]), requires_grad=True)      # column state, h = W @ h
+        else:
+            x = sg.Tensor(np.array([[1.0, 2.0]]), requires_grad=True)        # row state, h = h @ W
+        J = np.eye(2)                                                        # d vec(h) / d vec(x)
+        h = x
+        zero_col, zero_row = np.zeros((2, 1)), np.zeros((1, 2))
+        for i in range(n):
+            W = Ws[i % 2]
+            if variant == "matmul_right":
+                h = TF.matmul(C(W), h); J = W @ J
+            elif variant == "matmul_left":
+                h = TF.matmul(h, C(W)); J = W.T @ J
+            elif variant == "addmm_third":
+                h = TF.addmm(C(zero_col), C(W), h); J = W @ J
+            elif variant == "addmm_second":
+                h = TF.addmm(C(zero_row), h, C(W)); J = W.T @ J
+            else:   # addmm_first: the state is the additive term
+                h = TF.addmm(h, C(zero_row), C(W))
+        seed = np.array([[1.0], [3.0]]) if h.data.shape == (2, 1) else np.array([[1.0, 3.0]])
+        expected = (J.T @ seed.reshape(2, 1)).reshape(x.data.shape)
+        res["build_s"] = round(time.time() - t0, 2)
+        return finish(res, st, h, x, expected, seed)
+    x = sg.Tensor(np.array([1.0]), requires_grad=True)
+    y, d = x, 1.0
+    for i in range(n):
+        w = -1.0 if i % 2 else 1.0
+        if variant == "first_mul":
+            y = TF.mul(y, C([w])); d *= w
+        elif variant == "second_mul":
+            y = TF.mul(C([w]), y); d *= w
+        elif variant == "second_add":
+            y = TF.add(C([w]), y)
+        elif variant == "alternating":
+            y = TF.mul(C([w]), y) if i % 3 == 0 else (TF.add(y, C([w])) if i % 3 == 1 else TF.mul(y, C([w])))
+            d *= 1.0 if i % 3 == 1 else w
+        elif variant == "unary":
+            y = TF.neg(y) if i % 2 else y.clone(); d *= -1.0 if i % 2 else 1.0
+        elif variant == "concat_second":
+            y = TF.concat([C([w]), y], 0)[1:]
+        elif variant == "concat_first":
+            y = TF.concat([y, C([w])], 0)[:1]
+        elif variant == "stack_second":
+            y = TF.stack([C([w]), y], 0)[1]
+        elif variant == "tensor_scalar_mix":
+            if i % 97 == 96:
+                y = y + x; d += 1.0
+            elif i % 2:
+                y = -1.0 * y; d = -d
+            else:
+                y = 1.0 + y
+        else:
+            raise ValueError(variant)
+    res["build_s"] = round(time.time() - t0, 2)
+    res = finish(res, st, y, x, [d])
+    if res.get("ok"):
+        try:
+            y.backward()          # a second call accumulates; every closure has now run exactly twice
+            res["grad_after_second_call"] = float(x._grad[0])
+            res["calls_after_second_call"] = sorted(set(st["calls"].values()))
+        except BaseException as ex:
+            res.update(ok=False, error="second call: %s: %s" % (type(ex).__name__, str(ex)[:200]))
+    return res
+
+
+DIAMOND_VARIANTS = ["const_w", "param_w", "triple", "matmul"]
+
+
+def diamond(depth, variant):
+    """depth stacked blocks, every block uses the previous state twice (2^depth paths, 2*depth ops)."""
+    from lib import impl
+    sg, np, TF = impl.synapgrad, impl.np, impl.TF
+    st = instrument(impl)
+    res = {"kind": "diamond", "depth": depth, "variant": variant, "paths": "2^%d" % depth}
+    if variant == "matmul":
+        x = sg.Tensor(np.array([[1.0, 0.0], [0.0, 1.0]]), requires_grad=True)
+        h = x
+        for i in range(depth):
+            h = TF.matmul(h, h)              # x^(2^depth) at x = I: d sum(h)/dx = 2^depth * ones
+        return finish(res, st, h, x, (2.0 ** depth) * np.ones((2, 2)), np.ones((2, 2)))
+    x = sg.Tensor(np.array([1.0]), requires_grad=True)
+    w = sg.Tensor(np.array([1.0]), requires_grad=(variant == "param_w"))
+    h = x
+    for i in range(depth):
+        if variant == "triple":
+            h = h + h * w + h * 0.0          # the state is used three times; 3^depth paths, factor 2 per block
+        else:
+            h = h + h * w                    # the state is used twice
+    return finish(res, st, h, x, [2.0 ** depth])
 
 
 def untracked(iters, mode):
     """p <- p - lr * g repeated; mode 'no_grad': tracked operands inside no_grad; 'plain': operands that do not require grad;
-    'tracked': control (history must be kept)."""
+    'tracked': control (history must be kept); 'concat_param' / 'stack_param' / 'unbind_param': list / multi-output ops under
+    no_grad with an operand (a parameter) that itself requires grad."""
     from lib import impl
-    sg, np = impl.synapgrad, impl.np
-    p = sg.Tensor(np.array([1.0, 2.0]), requires_grad=(mode != "plain"))
+    sg, np, TF = impl.synapgrad, impl.np, impl.TF
+    param = sg.Tensor(np.array([0.5, 0.25]), requires_grad=True)
+    p = sg.Tensor(np.array([1.0, 2.0]), requires_grad=(mode not in ("plain",)))
     g = sg.Tensor(np.array([0.5, 0.25]), requires_grad=False)
     refs = []
     children_empty = True
@@ -61,6 +198,18 @@ def untracked(iters, mode):
         if mode == "no_grad":
             with sg.no_grad():
                 q = p - g * 0.5
+        elif mode == "concat_param":
+            with sg.no_grad():
+                q = TF.concat([p, param], 0)[-2:]
+        elif mode == "concat_traj":
+            with sg.no_grad():
+                q = TF.concat([p, param], 0)          # traj = concat([traj, param]): the trajectory grows, earlier ones must die
+        elif mode == "stack_param":
+            with sg.no_grad():
+                q = TF.stack([p, param], 0)[1] + 0.0
+        elif mode == "unbind_param":
+            with sg.no_grad():
+                q = TF.unbind(TF.stack([p, param], 0), 0)[0]
         else:
             q = p - g * 0.5
         refs.append(weakref.ref(p))
@@ -69,14 +218,63 @@ def untracked(iters, mode):
         p = q
     gc.collect()
     alive = sum(1 for r in refs if r() is not None)
-    return {"mode": mode, "iterations": iters, "earlier_operands_alive": alive, "children_empty": children_empty,
-            "results_untracked": req_false, "value": [float(v) for v in p.data]}
+    return {"kind": "untracked", "mode": mode, "iterations": iters, "earlier_operands_alive": alive, "children_empty": children_empty,
+            "results_untracked": req_false}
+
+
+def catalog():
+    """Every op of lib/opcatalog.py computed without tracking - (a) under no_grad() with operands that require grad,
+    (b) with grad mode on from operands that do not require grad - yields results with _children == (), grad_fn None,
+    requires_grad False, and does not keep its operands alive."""
+    import random
+    from lib import impl, opcatalog
+    sg, np = impl.synapgrad, impl.np
+    rng = random.Random(17)
+    bad = []
+    n = 0
+    for op in opcatalog.catalog(impl):
+        for mode in ("no_grad+requiring operands", "grad mode on, non-requiring operands"):
+            n += 1
+            try:
+                arrs = [opcatalog.make_operand(impl, rng, spec, np.float64) for spec in op.operands]
+                ops = [sg.Tensor(a, requires_grad=(mode.startswith("no_grad") and spec[2])) for a, spec in zip(arrs, op.operands)]
+                if mode.startswith("no_grad"):
+                    with sg.no_grad():
+                        out = op.call(ops)
+                else:
+                    out = op.call(ops)
+                outs = list(out) if isinstance(out, (tuple, list)) else [out]
+                probs = []
+                for o in outs:
+                    if o._children != ():
+                        probs.append("_children has %d entries" % len(o._children))
+                    if o.grad_fn is not None:
+                        probs.append("grad_fn is attached")
+                    if o.requires_grad:
+                        probs.append("requires_grad is True")
+                refs = [weakref.ref(t) for t in ops]
+                del ops, arrs, out
+                gc.collect()
+                alive = sum(1 for r in refs if r() is not None)
+                if alive:
+                    probs.append("%d of %d operands still alive after gc" % (alive, len(refs)))
+                del outs
+                if probs:
+                    bad.append({"op": op.name, "wrapper": op.wrapper, "mode": mode, "problems": sorted(set(probs))})
+            except BaseException as ex:
+                bad.append({"op": op.name, "wrapper": op.wrapper, "mode": mode, "problems": ["raised %s: %s" % (type(ex).__name__, str(ex)[:120])]})
+    impl.reset_modes()
+    return {"kind": "catalog", "cases": n, "bad": bad}
 
 
 if __name__ == "__main__":
     kind = sys.argv[1]
     if kind == "chain":
-        out = chain(int(sys.argv[2]))
+        out = chain(int(sys.argv[2]), sys.argv[3] if len(sys.argv) > 3 else "tensor_scalar_mix")
+    elif kind == "diamond":
+        out = diamond(int(sys.argv[2]), sys.argv[3] if len(sys.argv) > 3 else "const_w")
+    elif kind == "catalog":
+        out = catalog()
     else:
         out = untracked(int(sys.argv[2]), sys.argv[3])
     print("PROBE " + json.dumps(out))
